@@ -72,22 +72,27 @@ Proof. exact run_returns_at_most_once. Qed.
 Print Assumptions C13_once.
 
 (* with the status that was requested FIRST among everything requested before the returning poll (the timeout
-   task's TimedOut is one of the requests), provided at most 16 requests are queued at that poll; Exited when
-   all senders are gone; TimedOut without a request only from the outer deadline *)
+   task's TimedOut is one of the requests), however many requests are queued (since commit 0cf74903 the first
+   one is remembered in Shutdown.first and returned when the receiver lags); Exited when all senders are gone;
+   TimedOut without a request only from the outer deadline *)
 Theorem C13_status : forall evs t st,
   rrun rinit evs = [(t, st)] ->
   exists pre e post, evs = pre ++ (t, e) :: post /\ (e = RPoll \/ e = RDeadline) /\
-    (forall first more, reqs_of pre = first :: more -> length more < capacity -> st = first) /\
+    (forall first more, reqs_of pre = first :: more -> st = first) /\
     (reqs_of pre = [] -> (closed_in pre = true /\ st = Exited) \/ (e = RDeadline /\ st = TimedOut)).
 Proof. exact run_status. Qed.
 Print Assumptions C13_status.
 
-(* the bound is needed: 17 requests before the run task is polled, and the FIRST status is lost (the receiver
-   of broadcast::channel(16) lags; get_status continues with the oldest retained message) *)
-Theorem C13_status_lag_refuted :
-  exists evs first, reqs_of evs = first :: tl (reqs_of evs) /\ rrun rinit evs = [(0%N, Status 2)] /\ first = Status 1.
-Proof. exists seventeen, (Status 1). split; [reflexivity|]. split; [exact lagged_first_status_lost | reflexivity]. Qed.
-Print Assumptions C13_status_lag_refuted.
+(* the code BEFORE that commit (rrun_orig: on Lagged continue with the oldest retained message) lost the first
+   status when 17 requests were queued before the run task was polled; the repaired code returns it *)
+Theorem C13_status_lag_orig_refuted :
+  exists evs first, reqs_of evs = first :: tl (reqs_of evs) /\ first = Status 1 /\
+    rrun_orig rinit evs = [(0%N, Status 2)] /\ rrun rinit evs = [(0%N, Status 1)].
+Proof.
+  exists seventeen, (Status 1). split; [reflexivity|]. split; [reflexivity|].
+  split; [exact lagged_first_status_lost_orig | exact lagged_first_status_kept].
+Qed.
+Print Assumptions C13_status_lag_orig_refuted.
 
 (* with a timeout d and prompt polling: the first application request if made strictly before d, else TimedOut
    at d -- exactly once *)
@@ -122,14 +127,14 @@ Theorem C13_validate_sound : forall c tr st t,
    forall pre o post, tr = pre ++ o :: post -> obs_net o = true ->
    forall i, i < v_napps c -> In (OArrive i) pre) /\
   (forall d, v_timeout c = Some d ->
-     (t <= d + second_ns + (if v_paused c then 0 else 250000000))%N) /\
+     (t <= d + second_ns + v_slack c)%N) /\
   (v_paused c = true -> (v_napps c <> 0 \/ existsb (status_eqb st) (v_builtin_sts c) = false) ->
      check_paused (v_timeout c) tr st t = true).
 Proof. exact validate_sound. Qed.
 Print Assumptions C13_validate_sound.
 
 Theorem C13_validate_predict : forall d tr st t,
-  check_paused (Some d) tr st t = true -> lag_pick tr = None ->
+  check_paused (Some d) tr st t = true ->
   (forall s, first_req tr <> Some (s, d)) ->
   (st, t) = predict (Some d) (first_req tr).
 Proof. exact check_paused_predict. Qed.
